@@ -256,9 +256,38 @@ def fmt_value(v):
         return str(v)
     if isinstance(v, float):
         return rust_float_display(v)
-    if isinstance(v, Enum) and len(v.fields) == 1 and "0" in v.fields and not isinstance(v.fields["0"], (Enum, Opaque)):
+    if isinstance(v, Enum) and len(v.fields) == 1 and "0" in v.fields and not isinstance(v.fields["0"], (Enum, Opaque)) and v.adt not in ("Option", "Result"):
         return fmt_value(v.fields["0"])
     raise Unknown("formatting of %r" % (v,))
+
+
+def debug_value(v, ty=""):
+    """`{:?}` of the values the reader models (derive(Debug) layout)"""
+    if isinstance(v, Ref):
+        v = v.get()
+    if isinstance(v, bool):
+        return "true" if v else "false"
+    if isinstance(v, int):
+        return str(v)
+    if isinstance(v, float):
+        t_ = rust_float_display(v, single=(ty == "f32"))
+        return t_ + ".0" if ("." not in t_ and t_[-1:].isdigit()) else t_
+    if isinstance(v, str):
+        q_ = "'" if ty == "char" else '"'
+        return q_ + v.replace("\\", "\\\\").replace('"', '\\"').replace("\n", "\\n") + q_
+    if isinstance(v, tuple):
+        return "(" + ", ".join(debug_value(x) for x in v) + ("," if len(v) == 1 else "") + ")"
+    if isinstance(v, list):
+        return "[" + ", ".join(debug_value(x) for x in v) + "]"
+    if isinstance(v, Enum) and not any(isinstance(x, Opaque) for x in v.fields.values()):
+        named = [k for k in v.fields if not k.isdigit()]
+        head = v.variant if v.variant else v.adt
+        if not v.fields:
+            return head
+        if named:
+            return "%s { %s }" % (head, ", ".join("%s: %s" % (k, debug_value(x)) for k, x in v.fields.items()))
+        return "%s(%s)" % (head, ", ".join(debug_value(v.fields[k]) for k in sorted(v.fields)))
+    raise Unknown("debug formatting of %r" % (v,))
 
 
 class PyFn:
@@ -539,6 +568,10 @@ class Interp:
                 return max(lo, min(hi, int(v)))           # float -> int saturates
             if isinstance(v, float) and t == "f32":
                 return F32(v)
+            if t == "char" and isinstance(v, int) and not isinstance(v, bool) and 0 <= v < 0x110000 and e.get("from") in ("u8", None):
+                return chr(v)
+            if isinstance(v, str) and len(v) == 1 and t in INT_BITS:
+                return ord(v)
             return v
         if k == "Assign":
             val = self.ev(e["r"], env, depth)
@@ -840,6 +873,12 @@ class Interp:
                     out.append(x.fields.get("0") if isinstance(x, Enum) and x.variant == "Ok" else x)
                 return Enum("Result", "Ok", {"0": out})
             return list(v)
+        if gen in ("core::slice::<impl [T]>::iter_mut", "alloc::vec::Vec::<T, A>::iter_mut") or \
+                (gen == "core::iter::traits::collect::IntoIterator::into_iter" and (e.get("self") or e.get("ty") or "").startswith("&mut alloc::vec::Vec")):
+            v = self.ev(args[0], env, depth)
+            v = v.get() if isinstance(v, Ref) else v
+            if isinstance(v, list):
+                return [x if isinstance(x, (list, Enum, HSet, HMap)) else Ref(v, i) for i, x in enumerate(v)]
         if gen in LIST_IDENTITY:
             v = self.ev(args[0], env, depth)
             if isinstance(v, Ref) and isinstance(v.get(), (HSet, HMap, list)):
@@ -975,6 +1014,20 @@ class Interp:
                 return Enum("Option", "Some", {"0": v[best]})
             if m == "unzip":
                 return ([x[0] for x in v], [x[1] for x in v])
+            if m in ("eq", "ne", "lt", "le", "gt", "ge", "cmp"):
+                o_ = self.ev(args[1], env, depth)
+                o_ = o_.get() if isinstance(o_, Ref) else o_
+                if not isinstance(o_, (list, tuple)):
+                    raise Unknown("%s with %r" % (m, o_))
+                dr = lambda z: z.get() if isinstance(z, Ref) else z
+                a_, b_ = [dr(z) for z in v], [dr(z) for z in o_]
+                if m in ("eq", "ne"):
+                    same_ = len(a_) == len(b_) and all(_deep_eq(p_, q_) for p_, q_ in zip(a_, b_))
+                    return same_ if m == "eq" else not same_
+                if all(isinstance(z, (int, str)) and not isinstance(z, bool) for z in a_ + b_):
+                    c_ = (a_ > b_) - (a_ < b_)
+                    return {"lt": c_ < 0, "le": c_ <= 0, "gt": c_ > 0, "ge": c_ >= 0, "cmp": Enum("Ordering", ORD[c_])}[m]
+                raise Unknown("iterator comparison")
             if m == "flatten":
                 out_ = []
                 for x in v:
@@ -1062,8 +1115,9 @@ class Interp:
                 return []
             if m == "from_elem":
                 x0, n0 = self.ev(args[0], env, depth), self.ev(args[1], env, depth)
-                if isinstance(n0, int) and n0 <= 64:
-                    return [x0 for _ in range(n0)]
+                if isinstance(n0, int) and n0 <= 4096:
+                    import copy as _c
+                    return [x0 if isinstance(x0, (bool, int, float, str)) else _c.deepcopy(x0) for _ in range(n0)]
                 raise Unknown("vec![x; n] with n = %r" % (n0,))
             v = self.ev(args[0], env, depth)
             if isinstance(v, Ref):
@@ -1086,6 +1140,31 @@ class Interp:
             if isinstance(v, Enum) and v.variant == "Some" and isinstance(v.fields.get("0"), Ref):
                 return Enum("Option", "Some", {"0": v.fields["0"].get()})
             return v
+        if gen in ("core::option::Option::<T>::take", "core::option::Option::<T>::replace", "core::option::Option::<T>::insert", "core::option::Option::<T>::get_or_insert_with",
+                   "core::option::Option::<T>::get_or_insert"):
+            tgt = self.ev(args[0], env, depth)
+            cur = tgt.get() if isinstance(tgt, Ref) else tgt
+            if not (isinstance(cur, Enum) and cur.variant in ("Some", "None")):
+                raise Unknown("%s on %r" % (short(gen), cur))
+            m_ = short(gen)
+            if m_ == "take":
+                new_ = Enum("Option", "None")
+            elif m_ in ("replace", "insert"):
+                new_ = Enum("Option", "Some", {"0": self.ev(args[1], env, depth)})
+            elif cur.variant == "Some":
+                new_ = cur
+            else:
+                a1 = self.ev(args[1], env, depth)
+                new_ = Enum("Option", "Some", {"0": self.call_callable(a1, [], depth) if m_.endswith("_with") else a1})
+            if new_ is not cur:
+                if isinstance(tgt, Ref):
+                    tgt.set(new_)
+                else:
+                    self.assign(args[0], new_, env, depth)
+            if m_ in ("take", "replace"):
+                return cur
+            inner = new_.fields.get("0")
+            return inner if isinstance(inner, (list, Enum, HSet, HMap)) else Ref(new_.fields, "0")
         if (gen.startswith("core::option::Option::<T>::") or gen.startswith("core::result::Result::<T, E>::")) and \
                 short(gen) not in ("is_some", "is_none", "is_ok", "is_err"):
             if short(gen) == "unwrap_or_default":
@@ -1111,7 +1190,7 @@ class Interp:
             return Enum("Option", "Some", {"0": v1 if short(gen) == "then_some" else self.call_callable(v1, [], depth)})
         if gen.startswith("core::num::<impl ") and short(gen) in ("next_multiple_of", "next_power_of_two", "max", "min", "pow", "abs", "unsigned_abs",
                                                                   "wrapping_add", "wrapping_sub", "wrapping_mul", "checked_add", "checked_sub", "checked_mul", "saturating_sub",
-                                                                  "wrapping_rem", "wrapping_div", "wrapping_shl", "wrapping_shr", "wrapping_neg", "checked_div", "checked_rem",
+                                                                  "wrapping_rem", "wrapping_div", "wrapping_shl", "wrapping_shr", "wrapping_neg", "wrapping_abs", "checked_div", "checked_rem",
                                                                   "checked_neg", "checked_shl", "checked_shr"):
             m = short(gen)
             ty = gen[len("core::num::<impl "):].split(">")[0]
@@ -1146,6 +1225,8 @@ class Interp:
 
             def trem(x, y):
                 return abs(x) % abs(y) * (1 if x >= 0 else -1)
+            if m == "wrapping_abs":
+                return wrapv(abs(a0))
             if m in ("wrapping_neg", "checked_neg"):
                 r = -a0
                 if m == "wrapping_neg":
@@ -1348,9 +1429,8 @@ class Interp:
                             if fa.debug and "." not in t_ and t_[-1:].isdigit():
                                 t_ += ".0"
                             out.append(t_)
-                        elif isinstance(fa, FmtArg) and fa.debug and isinstance(fv, str):
-                            q_ = "'" if fa.ty == "char" else '"'
-                            out.append(q_ + fv.replace("\\", "\\\\").replace('"', '\\"').replace("\n", "\\n") + q_)
+                        elif isinstance(fa, FmtArg) and fa.debug:
+                            out.append(debug_value(fv, fa.ty))
                         else:
                             out.append(fmt_value(fv))
                 return FmtArgs("".join(out))
@@ -1649,6 +1729,49 @@ class Interp:
                         raise Unknown("core::panicking: attempt to %s with overflow" % OPS[gen].lower())
                 return F32(r_) if ty_ == "f32" and isinstance(r_, float) else r_
             raise Unknown("%s on %r, %r" % (short(gen), a0, b0))
+        if gen in ("core::slice::<impl [T]>::swap",):
+            base = self.ev(args[0], env, depth)
+            base = base.get() if isinstance(base, Ref) else base
+            i_, j_ = self.ev(args[1], env, depth), self.ev(args[2], env, depth)
+            if isinstance(base, list) and isinstance(i_, int) and isinstance(j_, int):
+                if not (0 <= i_ < len(base) and 0 <= j_ < len(base)):
+                    raise Unknown("core::panicking: index out of bounds in swap")
+                base[i_], base[j_] = base[j_], base[i_]
+                return ()
+            raise Unknown("swap")
+        if gen in ("core::cmp::Ordering::then_with", "core::cmp::Ordering::then", "core::cmp::Ordering::reverse", "core::cmp::Ordering::is_lt", "core::cmp::Ordering::is_le",
+                   "core::cmp::Ordering::is_gt", "core::cmp::Ordering::is_ge", "core::cmp::Ordering::is_eq", "core::cmp::Ordering::is_ne"):
+            o_ = self.ev(args[0], env, depth)
+            o_ = o_.get() if isinstance(o_, Ref) else o_
+            if not (isinstance(o_, Enum) and o_.variant in ("Less", "Equal", "Greater")):
+                raise Unknown("%s on %r" % (short(gen), o_))
+            m_ = short(gen)
+            if m_ in ("then_with", "then"):
+                if o_.variant != "Equal":
+                    return o_
+                n_ = self.ev(args[1], env, depth)
+                return self.call_callable(n_, [], depth) if m_ == "then_with" else n_
+            if m_ == "reverse":
+                return Enum("Ordering", {"Less": "Greater", "Greater": "Less", "Equal": "Equal"}[o_.variant])
+            return {"is_lt": o_.variant == "Less", "is_le": o_.variant != "Greater", "is_gt": o_.variant == "Greater", "is_ge": o_.variant != "Less",
+                    "is_eq": o_.variant == "Equal", "is_ne": o_.variant != "Equal"}[m_]
+        if gen in ("core::char::methods::<impl char>::to_digit", "core::char::methods::<impl char>::to_ascii_uppercase", "core::char::methods::<impl char>::to_ascii_lowercase",
+                   "core::num::<impl u8>::to_ascii_uppercase", "core::num::<impl u8>::to_ascii_lowercase", "core::char::methods::<impl char>::len_utf8"):
+            c_ = self.ev(args[0], env, depth)
+            c_ = c_.get() if isinstance(c_, Ref) else c_
+            m_ = short(gen)
+            if isinstance(c_, int) and "u8" in gen:
+                ch = chr(c_)
+                return ord(ch.upper() if m_.endswith("uppercase") else ch.lower()) if c_ < 128 else c_
+            if isinstance(c_, str) and len(c_) == 1:
+                if m_ == "to_digit":
+                    radix = self.ev(args[1], env, depth)
+                    d_ = "0123456789abcdefghijklmnopqrstuvwxyz".find(c_.lower())
+                    return Enum("Option", "Some", {"0": d_}) if isinstance(radix, int) and 0 <= d_ < radix else Enum("Option", "None")
+                if m_ == "len_utf8":
+                    return len(c_.encode("utf-8"))
+                return (c_.upper() if m_.endswith("uppercase") else c_.lower()) if ord(c_) < 128 else c_
+            raise Unknown("%s of %r" % (m_, c_))
         if gen == "core::cmp::Ord::clamp" and len(args) == 3:
             v0, lo_, hi_ = [self.ev(a, env, depth) for a in args]
             if all(isinstance(x, (int, float)) and not isinstance(x, bool) for x in (v0, lo_, hi_)):
@@ -1697,7 +1820,8 @@ class Interp:
                     return Enum("Result", "Ok", {"0": lo_})
                 return Enum("Result", "Err", {"0": lo_ + (1 if base[lo_] < x else 0)})
             raise Unknown("binary_search on %r" % (base,))
-        if gen in ("core::slice::<impl [T]>::windows", "core::slice::<impl [T]>::chunks", "core::slice::<impl [T]>::concat", "core::slice::<impl [T]>::split_last"):
+        if gen in ("core::slice::<impl [T]>::windows", "core::slice::<impl [T]>::chunks", "core::slice::<impl [T]>::concat", "core::slice::<impl [T]>::split_last",
+                   "alloc::slice::<impl [T]>::concat"):
             base = self.ev(args[0], env, depth)
             base = base.get() if isinstance(base, Ref) else base
             if not isinstance(base, (list, tuple)):
@@ -1715,7 +1839,7 @@ class Interp:
             return [list(base[i:i + k_]) for i in range(0, len(base), k_)]
         if gen.startswith(("core::str::<impl str>::", "alloc::str::<impl str>::")) and short(gen) in ("split", "trim", "trim_start", "trim_end", "replace", "lines", "to_uppercase",
                                                                                                        "to_lowercase", "split_whitespace", "char_indices", "to_ascii_uppercase", "to_ascii_lowercase",
-                                                                                                       "eq_ignore_ascii_case", "repeat", "splitn"):
+                                                                                                       "eq_ignore_ascii_case", "repeat", "splitn", "matches"):
             m_ = short(gen)
             v0 = self.ev(args[0], env, depth)
             v0 = v0.get() if isinstance(v0, Ref) else v0
@@ -1745,6 +1869,8 @@ class Interp:
                 return v0.lower() == rest_[0].lower() if v0.isascii() and rest_[0].isascii() else v0 == rest_[0]
             if m_ == "repeat" and isinstance(rest_[0], int):
                 return v0 * rest_[0]
+            if m_ == "matches" and isinstance(rest_[0], str) and rest_[0] != "":
+                return [rest_[0]] * v0.count(rest_[0])
             raise Unknown("%s arguments" % m_)
         if gen.startswith("core::num::<impl ") and short(gen) in ("count_ones", "count_zeros", "leading_zeros", "trailing_zeros", "is_power_of_two", "saturating_add", "saturating_sub",
                                                                   "saturating_mul", "rem_euclid", "div_euclid", "abs_diff", "signum", "is_negative", "is_positive", "swap_bytes",
@@ -1908,6 +2034,19 @@ class Interp:
             if callee is None:
                 return v
         callee = self.facts.bodies.get(cal)
+        if callee is None and e.get("trait") and args and depth < self.max_depth:
+            # a call through `dyn Trait` (or an unresolved generic): dispatch on the value the receiver has
+            recv = self.ev(args[0], env, depth)
+            recv = recv.get() if isinstance(recv, Ref) else recv
+            if isinstance(recv, Enum) and recv.adt:
+                m_ = short(cal)
+                cands = [b_ for p_, b_ in self.facts.bodies.items() if p_.startswith("<") and p_.endswith("::" + m_) and (" as %s>" % e["trait"]) in p_
+                         and short(p_[1:].split(" as ")[0]) == recv.adt]
+                if len(cands) == 1:
+                    return self.apply(cands[0], [recv] + [self.ev(a, env, depth) for a in args[1:]], depth + 1)
+                dflt = self.facts.bodies.get("%s::%s" % (e["trait"], m_))
+                if not cands and dflt is not None:
+                    return self.apply(dflt, [recv] + [self.ev(a, env, depth) for a in args[1:]], depth + 1)
         if callee is None or depth >= self.max_depth:
             raise Unknown("call to " + cal)
         vals = [self.ev(a, env, depth) for a in args]
@@ -1997,8 +2136,30 @@ class Interp:
             return Enum("Option", "None") if some else Enum("Option", "Some", {"0": v.fields.get("0")})
         if m == "ok":
             return Enum("Option", "Some", {"0": x}) if some else Enum("Option", "None")
-        if m in ("as_ref", "as_mut", "as_deref", "copied", "cloned", "take"):
+        if m == "as_mut" and some and not isinstance(x, (list, Enum, HSet, HMap, Ref)):
+            return Enum(v.adt, v.variant, {"0": Ref(v.fields, "0")})
+        if m in ("as_ref", "as_mut", "as_deref", "as_deref_mut"):
             return v
+        if m in ("copied", "cloned"):
+            return Enum(v.adt, v.variant, {"0": x.get() if isinstance(x, Ref) else x}) if some else v
+        if m in ("or_else",):
+            return v if some else self.call_callable(ev(0), [v.fields.get("0")] if is_res else [], depth)
+        if m in ("and",):
+            return ev(0) if some else v
+        if m in ("xor",):
+            o_ = ev(0)
+            so = isinstance(o_, Enum) and o_.variant == "Some"
+            return v if (some and not so) else (o_ if (so and not some) else Enum("Option", "None"))
+        if m in ("unwrap_or_default",):
+            return x if some else 0
+        if m in ("is_none_or",):
+            return bool(none or self.truth(self.call_callable(ev(0), [x], depth)))
+        if m in ("is_ok_and",):
+            return bool(some and self.truth(self.call_callable(ev(0), [x], depth)))
+        if m in ("flatten",):
+            return x if some else v
+        if m in ("iter", "into_iter"):
+            return [x] if some else []
         if m == "is_some_and":
             return bool(some and self.truth(self.call_callable(ev(0), [x], depth)))
         if m == "filter":
